@@ -246,10 +246,10 @@ func (eng *Engine) report(prop, tier, verifDir string, units []*FuncUnit, report
 	assumptions := map[string]bool{}
 	opaque := map[string]bool{}
 	abstractions := map[string]bool{}
-	var funcs []map[string]any
-	var samples []map[string]any
+	funcs := []map[string]any{}
+	samples := []map[string]any{}
 	kinds := map[string]int{}
-	var deadReturns []string
+	deadReturns := []string{}
 	var slowest *Obligation
 	for i, r := range reports {
 		if r == nil {
@@ -405,13 +405,13 @@ func (eng *Engine) report(prop, tier, verifDir string, units []*FuncUnit, report
 	for m := range trusted {
 		_ = m
 	}
-	var as []string
+	as := []string{}
 	as = append(as, sortedBoolKeys(assumptions)...)
 	for o := range opaque {
 		as = append(as, "callee abstracted (results unconstrained, heap havocked): "+o)
 	}
 	sort.Strings(as)
-	var abs []string
+	abs := []string{}
 	abs = append(abs, sortedBoolKeys(abstractions)...)
 	seed := 0
 	fmt.Sscanf(os.Getenv("VERIF_SEED"), "%d", &seed)
